@@ -26,8 +26,21 @@ def _attr(ex, obj, name, fr):
     return VOpaque("xr", ex.st.fresh_int("xr"), {"label": f"{obj.info.get('label')}.{name}", "of": obj, "attr": name})
 
 
+def _writes_out(ex, kwargs):
+    """numpy convention: a library call given `out=<array>` WRITES its result into that array. An array of the program handed over
+    that way no longer holds what it held (content havocked, event 'lib_writes' recorded: frame obligations of the callers see it)."""
+    o = kwargs.get("out")
+    for a in (list(o.items) if isinstance(o, VTuple) else [o]):
+        if isinstance(a, VRef) and isinstance(ex.st.cell(a), HArr):
+            c = ex.st.cell(a)
+            f = z3.Function(ex.st.fresh_name("written_by_library"), *([z3.IntSort()] * len(c.shape)), z3.RealSort())
+            c.elem = lambda ix, f=f: VFloat(f(*[z_int(i) for i in ix]))
+            ex.st.events.append(("lib_writes", a.addr))
+
+
 def _call(ex, f, args, kwargs, fr):
     ex.st.events.append(("xr_call", f.info.get("label"), list(args), dict(kwargs), f))
+    _writes_out(ex, kwargs)
     if str(f.info.get("label", "")).endswith("map_over_datasets"):
         # the library applies the user's function to every dataset of the tree: run it once on a generic dataset so
         # that what it passes on (coordinates, dimension values) is recorded
@@ -66,6 +79,7 @@ def canonical_call(name, args, kwargs):
 
 
 def _lib_call(ex, f, args, kwargs, fr):
+    _writes_out(ex, kwargs)
     args, kwargs = canonical_call(f.name, args, kwargs)
     ex.st.events.append(("lib_call", f.name, list(args), dict(kwargs)))
     return VOpaque("xr", ex.st.fresh_int("xr"), {"label": f.name + "()", "args": list(args), "kwargs": dict(kwargs)})
